@@ -228,6 +228,12 @@ pub fn label_config(cfg: &BuilderConfig, o: &mut Outcome) {
     if cfg.reuse_source {
         o.label("one-source-path-rewritten");
     }
+    if cfg.source_date_zone.is_some() && !cfg.changelog.is_empty() {
+        o.label("zoned-changelog-times");
+    }
+    if cfg.name.len() >= 64 {
+        o.label("long-name");
+    }
     if cfg.setters_last && !cfg.files.is_empty() {
         o.label("setters-after-files");
     }
@@ -249,7 +255,7 @@ impl Property for C06 {
         ]
     }
     fn required_labels(&self, _t: Tier) -> Vec<&'static str> {
-        vec!["setters-after-files", "same-name-dependencies-in-a-row", "root-level-file", "dot-style-destination", "inherited-mode", "comp-none", "comp-gzip", "comp-zstd", "comp-xz", "comp-bzip2", "signed", "scriptlet-verify", "scriptlet-pre_install", "dep-kind-0", "dep-kind-7", "packager-set", "group-set", "file-with-caps"]
+        vec!["zoned-changelog-times", "long-name", "setters-after-files", "same-name-dependencies-in-a-row", "root-level-file", "dot-style-destination", "inherited-mode", "comp-none", "comp-gzip", "comp-zstd", "comp-xz", "comp-bzip2", "signed", "scriptlet-verify", "scriptlet-pre_install", "dep-kind-0", "dep-kind-7", "packager-set", "group-set", "file-with-caps"]
     }
     fn phases(&self, tier: Tier) -> Vec<Phase<C06Case>> {
         vec![Phase::Random {
